@@ -299,7 +299,63 @@ class ChunkFamily(Family):
         return sum(1 for o in ops if o.startswith("ser.msg") or o.startswith("ser.setcs")) >= 2
 
 
-FAMILIES = {f.name: f for f in [TimeFamily(), AmfFamily(), AmfAdvFamily(), ChunkFamily()]}
+# ---------------------------------------------------------------------------------------- foreign
+import gen_foreign as GF
+
+
+def part_sizes(rng, total):
+    if total > 3000:
+        lo = max(total // 40, 64)
+        return rng.choice(["all", str(rng.range(lo, 4 * lo)), ",".join(str(rng.range(lo, 3 * lo)) for _ in range(3))])
+    return rng.choice(["all", "1", "1", str(rng.range(2, 9)), ",".join(str(rng.range(1, 30)) for _ in range(3)), "2,1,7,128"])
+
+
+class ForeignFamily(Family):
+    name = "foreign"
+    timeout_s = 600
+    anchored = ["rtmp/src/chunk_io/deserializer.rs"]
+    rule = ("one case = one chunk stream produced by the harness-independent Python sender written from RTMP 1.0 §5.3.1 "
+            "(csids 2..65599 in every legal 1/2/3-byte form, any legal header format per message, extended timestamps on first "
+            "and continuation chunks with three continuation conventions, repeated full headers, zero-length messages, in-band "
+            "chunk-size changes 1..2^31-1), fed to the real deserializer and the model under a partition (des.feed) and judged by "
+            "!des.decoded against the messages the sender encoded; C16: interleaved variant; C15/C03: additionally mutated copies "
+            "under two partitions (!des.split); non-trivial = ≥ 2 messages; distinct = distinct op text")
+
+    def gen(self, rng, tier, pid, stats):
+        n = 1500 if tier == "quick" else 15000
+        if pid == "C16":
+            n = n // 2
+            for _ in range(n):
+                bs, expect, ov = GF.encode_interleaved(rng, stats, rng.range(1, 4))
+                bump(stats, "interleaved_overlapping" if ov else "interleaved_nonoverlapping")
+                sz = part_sizes(rng, len(bs))
+                yield [("note overlap" if ov else "note sequential"), "des.new", f"des.feed {sz} {hexb(bs)}",
+                       "!des.decoded " + (" ".join(GF.show_msg(m) for m in expect) or "~")]
+            return
+        for _ in range(n):
+            big = rng.chance(1, 25)
+            bs, expect = GF.encode_sequential(rng, stats, rng.range(1, 8), max_len=(70000 if big else 700))
+            sz = part_sizes(rng, len(bs))
+            ops = ["des.new", f"des.feed {sz} {hexb(bs)}"]
+            if pid in ("C06", "C03"):
+                ops.append("!des.decoded " + (" ".join(GF.show_msg(m) for m in expect) or "~"))
+                ops.append(f"spec.feed {hexb(bs)}")
+            if pid in ("C15", "C03"):
+                ops.append(f"!des.split all {part_sizes(rng, len(bs))} {hexb(bs)}")
+                if len(bs) < 3000:
+                    ops.append(f"!des.split 1 {part_sizes(rng, len(bs))} {hexb(bs)}")
+                for _ in range(2):
+                    mb = GF.mutate_stream(rng, bs)
+                    s1, s2 = part_sizes(rng, len(mb)), part_sizes(rng, len(mb))
+                    ops += ["des.new", f"des.feed {s1} {hexb(mb)}", f"!des.split {s1} {s2} {hexb(mb)}"]
+                    bump(stats, "mutated_streams")
+            yield ops
+
+    def nontrivial(self, ops):
+        return any(o.startswith("des.feed") and len(o) > 60 for o in ops)
+
+
+FAMILIES = {f.name: f for f in [TimeFamily(), AmfFamily(), AmfAdvFamily(), ChunkFamily(), ForeignFamily()]}
 
 
 # ------------------------------------------------------------------------------- known findings
@@ -316,4 +372,7 @@ def matches_known(k, fname, ops, line, txt):
         if (b - a) % M32 != (1 << 31):
             return False
         return txt.startswith("! FAIL later") and "," not in txt.split(" ")[2]
+    if cls == "chunk-interleave-overlap":
+        # K1: only streams the generator marked as overlapping interleavings, only the decoded-messages oracle
+        return fname == "foreign" and len(ops) > 0 and ops[0] == "note overlap" and line.startswith("!des.decoded")
     return False
